@@ -80,6 +80,23 @@ def applyPerm (perm : List Nat) (l : List String) : Option (List String) :=
     perm.mapM (fun i => l[i]?)
   else none
 
+/-- one call of `SetServers` in a history: `ok sorted` — every name resolved, `sorted` is the list
+    `sort.Strings` + natsort produce; `fail` — some name did not resolve: the call returns the error
+    and, as documented ("If any error occurs, no changes are made to the internal server list"),
+    leaves the selector as it was -/
+inductive SetCall where
+  | ok (sorted : List String)
+  | fail
+  deriving Repr, DecidableEq
+
+/-- the selector's address list after a call -/
+def setCall (cur : List String) : SetCall → List String
+  | .ok sorted => sorted
+  | .fail => cur
+
+/-- … and after a history of calls (the selector starts empty) -/
+def runCalls (cur : List String) (calls : List SetCall) : List String := calls.foldl setCall cur
+
 /-- insert `x` so that it ends up at index `p` (the place natsort gives a new server) -/
 def insertAt (l : List String) (p : Nat) (x : String) : List String := l.take p ++ x :: l.drop p
 
